@@ -77,13 +77,19 @@ type caseOracle struct {
 	prev  snapshot
 	nReq  int
 	nResp int
+	// onViol is called at once for every violation: should the server die later in the case, the
+	// parent process has it already
+	onViol func(corr.Violation)
 }
 
 func (o *caseOracle) violate(clause, key, detail string) {
-	o.viol = append(o.viol, corr.Violation{
-		Property: "C02", Clause: clause, Key: key, Where: o.name,
-		Input: o.cs, Detail: detail,
-	})
+	// the input is the conversation up to and including the operation that showed the violation
+	in := &Case{Cfg: o.cs.Cfg, Ops: append([]string{}, o.cs.Ops...)}
+	v := corr.Violation{Property: "C02", Clause: clause, Key: key, Where: o.name, Input: in, Detail: detail}
+	o.viol = append(o.viol, v)
+	if o.onViol != nil {
+		o.onViol(v)
+	}
 }
 
 func findSess(sn snapshot, idx int) (sessSnap, bool) {
@@ -137,6 +143,30 @@ func (o *caseOracle) afterReq(r Req, res ReqResult, linked int, post snapshot, i
 		o.dist["conn-closed-after-error"]++
 		if success {
 			o.dist["conn-closed-after-2xx(handler error)"]++
+		}
+	}
+
+	// a Session header that names no live session of this server must not be honoured (DESCRIBE is
+	// answered by the connection, never by a session)
+	if r.Sid != "n" && r.Method != "describe" && success {
+		named := false
+		if r.Sid != "w" {
+			k, _ := strconv.Atoi(r.Sid)
+			_, named = findSess(pre, k)
+		}
+		if !named {
+			shape := "unlinked-conn"
+			switch {
+			case linked >= 0:
+				shape = "linked-conn"
+			case post.opened > pre.opened:
+				shape = "new-session"
+			}
+			o.dist["wrong-session-header-accepted:"+shape]++
+			o.violate("a request whose Session header names no session of this server is refused",
+				"sess-wrong-session-accepted:"+shape,
+				fmt.Sprintf("%s with a Session header that names no live session answered %d (Session header of the response: %s; connection associated with session %d before the request)",
+					r.Method, res.Status, res.SessHdr, linked))
 		}
 	}
 
@@ -223,10 +253,10 @@ func (o *caseOracle) afterReq(r Req, res ReqResult, linked int, post snapshot, i
 					"unexpected-close", fmt.Sprintf("session %d (%s, transport %s, conns %v) ended during %s (status %d, conn closed %v)",
 						target, p, proto, preConns, r.Method, res.Status, res.Closed))
 			case !legal || !success:
-				o.violate("an error / illegal request leaves the state unchanged", "error-moved-state:"+p+"/"+r.Method,
+				o.violate("an error / illegal request leaves the state unchanged", "sess-state-mismatch:error-moved:"+p+"/"+r.Method,
 					fmt.Sprintf("%s in state %s answered %d and the state became %s", r.Method, p, res.Status, q))
 			default:
-				o.violate("state == RFC prediction", "state-prediction:"+p+"/"+r.Method,
+				o.violate("state == RFC prediction", "sess-state-mismatch:"+p+"/"+r.Method,
 					fmt.Sprintf("%s in state %s answered %d: RFC predicts %s, ServerSession.State() = %s", r.Method, p, res.Status, want, q))
 			}
 			if success && r.Method == "teardown" && alive {
@@ -258,6 +288,16 @@ func (o *caseOracle) afterBatch(b BatchResult, post snapshot, in *instance) {
 	o.dist[fmt.Sprintf("pipelined-batch:answered-%d-of-%d", b.Answered, len(b.Sent))]++
 	if b.Detail != "" {
 		o.violate("responses come in request order and echo the CSeq", "pipeline-order", b.Detail)
+	}
+	for i, r := range b.Sent {
+		if i < b.Answered && r.Sid == "w" && r.Method != "describe" && strings.HasPrefix(b.Lines[i], "st 2") {
+			shape := "pipelined"
+			if (r.Method == "setup" || r.Method == "announce") && post.opened > o.prev.opened {
+				shape = "new-session"
+			}
+			o.violate("a request whose Session header names no session of this server is refused",
+				"sess-wrong-session-accepted:"+shape, fmt.Sprintf("pipelined %s with an unknown Session header: %s", r.Method, b.Lines[i]))
+		}
 	}
 	if b.Answered < len(b.Sent) && !b.Closed {
 		o.violate("exactly one response per request", "no-response",
